@@ -480,3 +480,16 @@ func vfFixTimes(src, dst string, when time.Time) {
 // syscallUmask pins the process umask to 022 (the sandbox default), so that modes of
 // created files are comparable between a served tree and an os-driven twin.
 func syscallUmask() { syscall.Umask(0o022) }
+
+func vfFirstDiff(a, b []byte) int {
+	n := len(a)
+	if len(b) < n {
+		n = len(b)
+	}
+	for i := 0; i < n; i++ {
+		if a[i] != b[i] {
+			return i
+		}
+	}
+	return n
+}
